@@ -47,5 +47,6 @@ Definition holds_C12w (ord : bool) (cs : amap pconf) (evs : list (tid * event)) 
   run3 (mon_w ord cs) cs (obs0 cs) [] evs.
 Definition c12_side (cs : amap pconf) (evs : list (tid * event)) : bool := run3 side_ok cs (obs0 cs) [] evs.
 Definition c12_noforeign (cs : amap pconf) (evs : list (tid * event)) : bool := run3 foreign_ok cs (obs0 cs) [] evs.
-Definition W_C12 (o : obs) : bool := w_commit o || w_sdlag o.
+(* the only check-then-act window the proof needs: commit (F20/F21) *)
+Definition W_C12 (o : obs) : bool := w_commit o.
 
